@@ -346,7 +346,7 @@ def gen_prim(rng) -> dict:
         eff["n"] = rng.choice([0, 1, 4])
     elif e == "nop":
         eff["f"] = rng.random() < 0.3
-    return {"prim": True, "ip": ip, "ch": rng.random() < 0.5 if not ip else True, "rq": rng.random() < 0.05,
+    return {"prim": True, "ip": ip, "ch": rng.random() < 0.5 if not ip else rng.random() < 0.8, "rq": rng.random() < 0.05,
             "en": rng.random() < 0.05, "cr": rng.random() < 0.05, "ret": ret, "eff": eff,
             "own": rng.random() < 0.5}
 
@@ -508,6 +508,8 @@ def infra_oracle(t: dict, obs: dict) -> list[str]:
     if t.get("incoming") is not None and "plain" in obs and obs["plain"] != o:
         bad.append(f"called with PassResult(modified={t['incoming']}) the pass returned {o}, with the Model itself {obs['plain']}: "
                    "the result must describe this application only")
+    if "fun" in t and obs["counters"] and obs["counters"][0] != t.get("c0", obs["counters"][0]):
+        bad.append(f"functionalize(...) changed the state of its INPUT model: counter {t.get('c0')} -> {obs['counters'][0]}")
     if t.get("valid_use") and o[0] != "ok":
         # every member is well behaved and honest: the composition must not raise (in particular not trip the
         # identity rule of PassBase.__call__ on itself)
@@ -848,8 +850,17 @@ def correspondence(ck, scale: int) -> dict:
         if i % 8 == 4:
             t = gen_functional_mgr(rng)
         c0 = rng.choice([0, 1, 2, 3, 5, 9]) if i % 8 != 4 else rng.choice([0, 0, 1, 2])
+        if i % 8 == 6:           # functionalize over a composition whose first member is declared side-effect-only
+            first = {"prim": True, "ip": True, "ch": False, "rq": False, "en": False, "cr": False, "ret": "same",
+                     "eff": {"k": "nop", "f": False}, "own": True}
+            second = {"prim": True, "ip": True, "ch": True, "rq": False, "en": False, "cr": False, "ret": "same",
+                      "eff": rng.choice([{"k": "dec", "n": 1}, {"k": "set", "n": 4}, {"k": "inc"}]), "own": True}
+            inner = {"mgr": [first, second], "steps": rng.choice([1, 2]), "early": True} if rng.random() < 0.5 else {"seq": [first, second]}
+            t = {"fun": inner}
+            c0 = rng.choice([1, 2, 5])
         incoming = rng.choice([None, None, True, False])      # a Model, or a PassResult with that flag
         t["incoming"] = incoming
+        t["c0"] = c0
         obs = run_infra_case(t, c0, incoming)
         ck.hist("infra_argument", "Model" if incoming is None else f"PassResult(modified={incoming})")
         ck.count()
@@ -1263,9 +1274,64 @@ def subgraph_domain_family() -> list[dict]:
     ]
 
 
+def side_effect_first_family():
+    """(spec, pspec): functionalize over compositions whose FIRST member is the side-effect-only CheckerPass followed by
+    in-place passes, on checker-valid models that the in-place passes do modify."""
+    def g(nodes, outs, inits=()):
+        return {"graph": {"name": "g", "inputs": ["x0"], "inits": list(inits), "nodes": nodes, "outputs": outs, "opsets": {"": 20}},
+                "functions": [], "names": {}}
+    live = {"name": "n0", "op": "Relu", "ins": ["x0"], "outs": ["v0"], "typed": True}
+    specs = [
+        g([live, {"name": "dead", "op": "Relu", "ins": ["x0"], "outs": ["d0"], "typed": True}], ["v0"]),
+        g([dict(live, doc="a doc string", meta={"k": "v"})], ["v0"], inits=[{"h": "w0", "kind": "small"}]),
+        g([{"name": "n1", "op": "Relu", "ins": ["v0"], "outs": ["v1"], "typed": True}, live], ["v1"]),     # unsorted
+    ]
+    pss = [{"fun": {"mgr": ["Checker", "RemoveUnusedNodes"], "steps": 1, "early": True}},
+           {"fun": {"mgr": ["Checker", "RemoveUnusedNodes"], "steps": 3, "early": True}},
+           {"fun": {"seq": ["Checker", "ClearMetadataAndDocString"]}},
+           {"fun": {"seq": ["Checker", "RemoveUnusedNodes", "ClearMetadataAndDocString"]}},
+           {"fun": {"seq": ["Checker"]}}, {"fun": "Checker"},
+           {"fun": {"mgr": [{"seq": ["Checker", "RemoveUnusedNodes"]}], "steps": 2, "early": False}}]
+    return [(s, p) for s in specs for p in pss]
+
+
+def subgraph_init_family() -> list[dict]:
+    """If branches that return one of their OWN initializers directly (no node in between), initializers that are also
+    inputs of the subgraph, depth 1 and 2, with and without dead code around."""
+    def branch(pfx, kind, inner=None):
+        gb = {"name": pfx + "g", "inputs": [], "inits": [{"h": pfx + "w", "kind": "small"}], "nodes": [], "outputs": [pfx + "w"]}
+        if kind == "input":           # the initializer is also a subgraph input, and nothing reads it
+            gb["inputs"] = [pfx + "w"]
+            gb["nodes"] = [{"name": pfx + "r", "op": "Relu", "ins": ["x0"], "outs": [pfx + "v"]}]
+            gb["outputs"] = [pfx + "v"]
+        if kind == "both":            # returned directly AND an unused second initializer
+            gb["inits"].append({"h": pfx + "u", "kind": "small"})
+        if inner is not None:
+            gb["nodes"] = [inner]
+            gb["outputs"] = [inner["outs"][0]]
+        return gb
+
+    def if_node(pfx, kind_t, kind_e, inner=None):
+        return {"name": pfx + "if", "op": "If", "ins": ["cond"], "outs": [pfx + "y"], "typed": True,
+                "attrs": {"then_branch": {"graph": branch(pfx + "t", kind_t, inner)}, "else_branch": {"graph": branch(pfx + "e", kind_e)}}}
+
+    def model(nodes, out, dead=False):
+        if dead:
+            nodes = nodes + [{"name": "dead", "op": "Relu", "ins": ["x0"], "outs": ["d0"]}]
+        return {"graph": {"name": "g", "inputs": ["x0", "cond"], "inits": [], "nodes": nodes, "outputs": [out], "opsets": {"": 20}},
+                "functions": [], "names": {}}
+    return [model([if_node("a", "out", "out")], "ay"), model([if_node("a", "out", "input")], "ay", dead=True),
+            model([if_node("a", "both", "out")], "ay"), model([if_node("a", "input", "input")], "ay"),
+            model([if_node("a", "out", "out", if_node("b", "out", "both"))], "ay"),
+            model([if_node("a", "out", "out", if_node("b", "input", "out"))], "ay", dead=True)]
+
+
 def gen_composition(rng, names: list[str]):
     k = rng.random()
     pick = lambda: rng.choice(names)  # noqa: E731
+    if k < 0.08:
+        inner = [rng.choice(["Checker", "CheckerFull"])] + [pick() for _ in range(rng.randrange(1, 3))]
+        return {"fun": {"mgr": inner, "steps": rng.choice([1, 2]), "early": True} if rng.random() < 0.5 else {"seq": inner}}
     if k < 0.3:
         return {"fun": pick()}
     if k < 0.55:
@@ -1328,6 +1394,13 @@ def oracle_sweep(ck, n_specs: int, n_comp: int, specs_first: list[dict]) -> list
                        {"fun": "RemoveUnusedFunctions"}):
                 run(spec, ps)
         reuse_stream(ck, specs)
+        for spec, ps in side_effect_first_family():   # functionalize(side-effect-only first, then in-place)
+            run(spec, ps)
+        for spec in subgraph_init_family():    # subgraph initializers returned directly / also subgraph inputs
+            for name in names:
+                run(spec, name)
+            for ps in ({"fun": "RemoveUnusedNodes"}, {"mgr": ["RemoveUnusedNodes", "LiftSubgraphInitializersToMainGraph"], "steps": 2, "early": True}):
+                run(spec, ps)
         for spec in subgraph_domain_family():  # a domain used only inside If bodies / function bodies
             for name in names:
                 run(spec, name)
@@ -1584,6 +1657,17 @@ All reported VIOLATION; "replay" = a concrete failing input found by the oracle,
        unused_opsets / no-failing-input-found; now replay through the oracle clause "opset-import" (a domain still used
        by nodes at any depth must keep the import it had) + subgraph_domain_family() (custom domain only inside If
        bodies at depth 1 and 2 and inside a function body), also fed to the unused_opsets correspondence.
+ S10 (seeded/C14-r6m1) functionalize clones only when inner.changes_input, Sequential.changes_input drops `or in_place` ->
+       FIRST only the translation obligation / no-failing-input-found; now replay: side_effect_first_family()
+       (functionalize over Sequential/PassManager whose first member is the side-effect-only CheckerPass followed by in-place
+       passes, on checker-valid models with dead code), random compositions of that shape, scripted infra terms
+       Fun(Seq/Mgr[declared side-effect-only prim, in-place prim]) with the clause "functionalize(...) leaves the state of
+       its input model unchanged".
+ S11 (seeded/C14-r6m2) RemoveUnusedNodesPass sweeps subgraph initializers against the MAIN graph's inputs/outputs -> FIRST
+       MISSED (no generated subgraph returned its own initializer); now replay (invariants I1:dangling-output) through
+       subgraph_init_family() (If branches returning an own initializer directly, initializers that are also subgraph
+       inputs, depth 1-2, with/without dead code; every pass + 2 compositions) and gen_graph (12% of subgraphs with
+       initializers return one directly).
 Also checked: with the four fix commits reverted (old HEAD 823601c) the check reported the six findings
 (KNOWN-FINDING while they were status "known"); with the fixes applied and the old models it reported every
 finding stale + broken correspondences (no false VIOLATION input in 26k oracle evaluations).
